@@ -46,6 +46,9 @@ def warm_start(
     pcount = f.variables["particle_count"][-1]
     pend = pstart + pcount
     pid_max = np.max(f.variables["pid"][:]) + 1
+    # Particles released but lost before they reached a record still count:
+    # the particle variables (if any) are stored for all particles released so far
+    pid_max = max(pid_max, len(f.dimensions["particle"]))
 
     logger.info("antall partikler = %s", pcount)
 
